@@ -64,6 +64,13 @@ CLAIMS = {
          "and pool reset as the guards of the two indices not tested locally. Does not decide in-range-ness of arbitrary subscripts; shifts needing a "
          "relational loop invariant are listed as undecided.",
          "who-may-grow / dominance path rules + constant-range evaluation + type-trait queries over clang AST facts (static analysis)"),
+ "C15": ("Decides that the two header flavours are the same program (token-identical after preprocessing in every configuration of the tier; otherwise "
+         "function-by-function comparison of symbolic event paths), that enabling a feature adds to the core functions only events owned by that feature "
+         "(cross-configuration differencing of the symbolic event paths of every core function, with a frozen ownership table per feature), that the "
+         "capacities containers are instantiated with equal the constants the machine publishes in every configuration, that published constants do "
+         "not depend on unrelated switches, that every switch owns a distinct bit of the feature tag, and payload~void agreement of the plan code. "
+         "Behavioural equality as such is implied for programs inside the common subset and is not separately computed.",
+         "cross-configuration differencing of symbolic event paths + preprocessor token comparison + type-level constant comparison (static analysis)"),
  "C16": ("Decides, in verbose and interface logging configurations, that each of the 34 state wrappers logs exactly once, before the callback, with "
          "STATE_ID and the Method (and member pointer) its name denotes; that every request entry point logs the transition it queues with the same "
          "kind / origin / destination; that cancellations, task / plan statuses and resolutions are logged unconditionally with the right ids; that "
